@@ -81,6 +81,9 @@ def level(base, small, tier_deps=True):
     # same length that strictly contains its members
     out += [["ounion", "K0", "K0", "K4"], ["ounion", "K0", "K4", "int"], ["ounion", "K4", "K0", "K0"], ["inter", "K0", "K0", "K4"],
             ["inter", "K0", "K4", "P"], ["inter", "K4", "K0", "K0"], ["ounion", "K0", "K4"], ["inter", "K0", "K4"]]
+    # the typing spelling of generics that are also in the universe in their builtin spelling
+    for b in ("K0", "K1", "int"):
+        out += [["tgen", "list", b], ["tgen", "type", b], ["tgen", "Iterable", b], ["tgen", "dict", b, "K0"], ["gen", "list", ["tgen", "list", b]]]
     # redundant nesting: a combination that has another combination as a direct member and whose other members add nothing
     out += [["ounion", ["ounion", "K0", "K4"], "K1"], ["ounion", "K1", ["ounion", "K0", "K4"]], ["ounion", ["ounion", "K0", "int"], "K3"],
             ["inter", ["inter", "K0", "K4"], "O"], ["inter", "O", ["inter", "K0", "K4"]], ["inter", ["inter", "K1", "K4"], "K0"],
@@ -141,7 +144,7 @@ def universe(depth):
         same = n is raw or (type(n) is type(raw) and n == raw)
         # typing.Union / Literal / tuple[...] / nested uses of them are annotations, not types:
         # they only ever reach the order in normal form
-        if isinstance(s, str) or same or (s[0] in ("gen", "type") and all(isinstance(x, str) for x in s[1:])):
+        if isinstance(s, str) or same or (s[0] in ("gen", "type", "tgen") and all(isinstance(x, str) for x in s[1:])):
             out.append(("raw:" + key, s, raw))
         if not same:
             out.append(("norm:" + key, s, n))
